@@ -70,10 +70,10 @@ def subscribeon(n, completes, unsub):
             'INVARIANTS OrderOK OnWorker NothingAfterUnsub NothingLost\nPROPERTY WorkerExits\nCHECK_DEADLOCK FALSE\n' % (n, 'TRUE' if completes else 'FALSE', 'TRUE' if unsub else 'FALSE'))
 
 
-def debounce(n):
-    return ('Debounce', 'debounce_%d' % n,
-            'SPECIFICATION Spec\nCONSTANTS D = 100\n Gaps = {40, 90, 110, 260}\n MaxEvents = %d\n ReadNotTake = FALSE\n'
-            'INVARIANTS OnlyEmitted InOrderNoneTwice NothingAfterEnd ExitWithinOnePeriod\nPROPERTY WorkerExits\nCHECK_DEADLOCK FALSE\n' % n)
+def debounce(n, fb=False):
+    return ('Debounce', 'debounce_%d%s' % (n, '_fb' if fb else ''),
+            'SPECIFICATION Spec\nCONSTANTS D = 100\n Gaps = {40, 90, 110, 260}\n MaxEvents = %d\n ReadNotTake = FALSE\n Feedback = %s\n HoldLockWhileDelivering = FALSE\n'
+            'INVARIANTS OnlyEmitted InOrderNoneTwice NothingAfterEnd ExitWithinOnePeriod NeverStuck\nPROPERTY WorkerExits\nCHECK_DEADLOCK FALSE\n' % (n, 'TRUE' if fb else 'FALSE'))
 
 
 def sampleconc(n, t):
@@ -122,8 +122,8 @@ CONC = {
     'C09': (['C09'], [schedqueue(1, 3, '{13}', 'handoff_1x3_abort_in_last'), observeon(3, 'c', False), observeon(2, 'e', True), observeon(2, 'c', True, fb=True), subscribeon(3, True, False), subscribeon(2, True, True)],
             [schedqueue(1, 3, '{13}', 'handoff_1x3_abort_in_last'), schedqueue(2, 2, '{}', 'handoff_2x2'), observeon(4, 'c', True), observeon(4, 'e', True), observeon(3, 'none', True), observeon(3, 'c', True, fb=True), observeon(3, 'none', True, fb=True), subscribeon(4, True, True), subscribeon(3, False, True)]),
     'C15': (['C15'], [schedqueue(1, 2, '{12}', 'lifecycle'), timedops(3), observeon(2, 'none', True), subscribeon(2, False, True), timedsources('interval')], [schedqueue(2, 2, '{11}', 'lifecycle2'), timedops(4), observeon(3, 'e', True), observeon(3, 'none', True)]),
-    'C16': (['C16'], [timedops(3), debounce(3), sampleconc(3, 3), timedsources('interval'), timedsources('timer'), timedsources('delay', 2)],
-            [timedops(4), debounce(4), sampleconc(5, 5), timedsources('interval'), timedsources('timer'), timedsources('delay', 4)]),
+    'C16': (['C16'], [timedops(3), debounce(3), debounce(2, fb=True), sampleconc(3, 3), timedsources('interval'), timedsources('timer'), timedsources('delay', 2)],
+            [timedops(4), debounce(4), debounce(3, fb=True), sampleconc(5, 5), timedsources('interval'), timedsources('timer'), timedsources('delay', 4)]),
     'C18': (['C18'], [tovec(2, False), tovec(2, True)], [tovec(4, False), tovec(4, True)]),
     'C13': (['C13'], [refcountconc(2, 1)], [refcountconc(3, 1), refcountconc(2, 2)]),
     'C04': (['C04'], [], []),
